@@ -373,6 +373,12 @@ func (a *c01Acct) infra(f string, args ...any) {
 	a.r.Cap("INFRASTRUCTURE (no verdict for this case): "+f, args...)
 }
 
+// c01Mine deals case number n to a shard. The multiplier mixes the index so that a shard does not always get
+// the same position of an inner loop whose length divides the number of shards.
+func c01Mine(n, shard, nshards int) bool {
+	return int((uint64(n)*0x9e3779b97f4a7c15)>>33)%nshards == shard
+}
+
 func c01Hex(b []byte) string {
 	if len(b) > 48 {
 		return hex.EncodeToString(b[:48]) + fmt.Sprintf("...(%d bytes)", len(b))
